@@ -17,6 +17,7 @@ import (
 
 type c1top struct {
 	name     string
+	kind     string // int | str | struct | ""
 	isStruct bool
 	labels   []string // regular-ish sub labels when isStruct
 	marks    bool
@@ -29,6 +30,7 @@ type c1gen struct {
 	ints     []string
 	counts   map[string]int
 	maxDepth int
+	fam      string // scalar family of the label being defined ("int", "str", "")
 	self     string // top-level name being defined (never referenced from inside)
 	refLimit int    // only tops[:refLimit] may be referenced (acyclic by construction)
 }
@@ -40,7 +42,38 @@ var c1types = []string{"int", "string", "bool", "number", "_", "float"}
 var c1bounds = []string{">0", "<10", ">=2", "<=2", "!=2", `=~"^s"`, `!="t"`, ">1.5"}
 var c1labels = []string{"a", "b", "c"}
 
+// scalar draws a scalar / type / bound. Most draws come from the family of the label being
+// defined (a, _h: integers around 1; b, "q-r": strings around "s"), so that several
+// declarations of one label are usually compatible; one draw in eight is unrestricted.
 func (g *c1gen) scalar() string {
+	fam := g.fam
+	if g.r.Chance(1, 40) {
+		fam = ""
+	}
+	switch fam {
+	case "int":
+		switch g.r.Intn(20) {
+		case 0, 1, 2, 3, 4, 5, 6, 7, 8:
+			return "1"
+		case 9:
+			return Pick(g.r, []string{"2", "3"})
+		case 10, 11, 12, 13:
+			return Pick(g.r, []string{"int", "number", "_"})
+		default:
+			return Pick(g.r, []string{">0", "<10", ">=1", "<=2", "!=2", "<=1"})
+		}
+	case "str":
+		switch g.r.Intn(20) {
+		case 0, 1, 2, 3, 4, 5, 6, 7, 8:
+			return `"s"`
+		case 9:
+			return `"t"`
+		case 10, 11, 12, 13:
+			return Pick(g.r, []string{"string", "_"})
+		default:
+			return Pick(g.r, []string{`=~"^s"`, `!="t"`, `!="u"`})
+		}
+	}
 	switch g.r.Intn(10) {
 	case 0, 1, 2, 3, 4:
 		return Pick(g.r, c1scalars)
@@ -51,48 +84,96 @@ func (g *c1gen) scalar() string {
 	}
 }
 
+func c1family(label string) string {
+	switch label {
+	case "a", "_h":
+		return "int"
+	case "b", `"q-r"`:
+		return "str"
+	case "c", "#d":
+		return "struct"
+	}
+	return ""
+}
+
 // val returns an expression text and whether it carries (or references) a default mark.
+// The family g.fam of the label being defined steers the shape: "int"/"str" → scalars of
+// that family, "struct" → structs, "" → anything (rare), so that most programs are valid.
 func (g *c1gen) val(depth int, marksOK bool, self string) (string, bool) {
-	if depth <= 0 {
-		switch g.r.Intn(10) {
-		case 0, 1:
-			return g.ref(marksOK, self)
-		case 2:
-			return g.disj(0, marksOK, self)
-		default:
+	fam := g.fam
+	if g.r.Chance(1, 40) {
+		fam = ""
+	}
+	switch fam {
+	case "int", "str":
+		switch w := g.r.Intn(100); {
+		case w < 55:
 			g.count("scalar")
 			return g.scalar(), false
+		case w < 70:
+			g.count("conj")
+			l, lm := g.val(0, marksOK, self)
+			r, rm := g.val(0, marksOK && !lm, self)
+			return c1par(l) + " & " + c1par(r), lm || rm
+		case w < 85:
+			return g.disj(0, marksOK, self)
+		default:
+			return g.ref(marksOK, self)
+		}
+	case "struct":
+		if depth <= 0 {
+			if g.r.Chance(1, 3) {
+				return g.ref(marksOK, self)
+			}
+			g.count("struct")
+			return g.structLit(0, marksOK)
+		}
+		switch w := g.r.Intn(100); {
+		case w < 50:
+			g.count("struct")
+			s, m := g.structLit(depth, marksOK)
+			if g.r.Chance(1, 8) {
+				g.count("close")
+				return "close(" + s + ")", m
+			}
+			return s, m
+		case w < 70:
+			g.count("conj")
+			l, lm := g.val(depth-1, marksOK, self)
+			r, rm := g.val(depth-1, marksOK && !lm, self)
+			if g.r.Chance(1, 4) {
+				r2, rm2 := g.val(depth-1, marksOK && !lm && !rm, self)
+				return c1par(l) + " & " + c1par(r) + " & " + c1par(r2), lm || rm || rm2
+			}
+			return c1par(l) + " & " + c1par(r), lm || rm
+		case w < 80:
+			return g.disj(depth, marksOK, self)
+		default:
+			return g.ref(marksOK, self)
 		}
 	}
-	switch w := g.r.Intn(100); {
-	case w < 18:
+	// anything
+	if depth <= 0 {
 		g.count("scalar")
+		return Pick(g.r, c1scalars), false
+	}
+	saved := g.fam
+	defer func() { g.fam = saved }()
+	switch w := g.r.Intn(100); {
+	case w < 30:
+		g.count("scalar")
+		g.fam = ""
 		return g.scalar(), false
-	case w < 32:
-		// conjunction: marks only on one side
-		g.count("conj")
-		l, lm := g.val(depth-1, marksOK, self)
-		r, rm := g.val(depth-1, marksOK && !lm, self)
-		if g.r.Chance(1, 4) {
-			r2, rm2 := g.val(depth-1, marksOK && !lm && !rm, self)
-			return c1par(l) + " & " + c1par(r) + " & " + c1par(r2), lm || rm || rm2
-		}
-		return c1par(l) + " & " + c1par(r), lm || rm
-	case w < 44:
-		return g.disj(depth, marksOK, self)
-	case w < 72:
-		g.count("struct")
-		s, m := g.structLit(depth, marksOK)
-		if g.r.Chance(1, 8) {
-			g.count("close")
-			return "close(" + s + ")", m
-		}
-		return s, m
-	case w < 80:
+	case w < 50:
 		g.count("list")
+		g.fam = Pick(g.r, []string{"int", "str", "struct"})
 		return g.list(depth, marksOK, self)
+	case w < 75:
+		g.fam = "struct"
+		return g.val(depth, marksOK, self)
 	default:
-		return g.ref(marksOK, self)
+		g.fam = Pick(g.r, []string{"int", "str"})
+		return g.val(depth, marksOK, self)
 	}
 }
 
@@ -130,7 +211,10 @@ func (g *c1gen) disj(depth int, marksOK bool, self string) (string, bool) {
 	alts := make([]string, n)
 	for i := range alts {
 		var s string
-		if depth > 0 && g.r.Chance(1, 3) {
+		if g.fam == "struct" || (g.fam == "" && depth > 0 && g.r.Chance(1, 3)) {
+			if depth < 1 {
+				depth = 1
+			}
 			s, _ = g.structLit(depth-1, g.free)
 		} else if g.free && depth > 0 && g.r.Chance(1, 5) {
 			s, _ = g.disj(depth-1, true, self)
@@ -180,6 +264,9 @@ func (g *c1gen) ref(marksOK bool, self string) (string, bool) {
 		if t.name == self || t.name == g.self || i >= g.refLimit {
 			continue
 		}
+		if g.fam != "" && t.kind != g.fam && !g.r.Chance(1, 20) {
+			continue
+		}
 		if t.marks && !marksOK && !g.free {
 			continue
 		}
@@ -191,16 +278,29 @@ func (g *c1gen) ref(marksOK bool, self string) (string, bool) {
 	}
 	g.count("ref")
 	t := Pick(g.r, cands)
-	if t.isStruct && len(t.labels) > 0 && g.r.Chance(1, 3) {
-		g.count("ref-selector")
-		return t.name + "." + Pick(g.r, t.labels), t.marks
+	if g.fam != "struct" && t.isStruct && len(t.labels) > 0 {
+		// a selector whose label family fits
+		var ls []string
+		for _, l := range t.labels {
+			if g.fam == "" || c1family(l) == g.fam {
+				ls = append(ls, l)
+			}
+		}
+		if len(ls) > 0 {
+			g.count("ref-selector")
+			return t.name + "." + Pick(g.r, ls), t.marks
+		}
+		if g.fam != "" {
+			g.count("scalar")
+			return g.scalar(), false
+		}
 	}
 	return t.name, t.marks
 }
 
 // structLit generates `{ decls }`.
 func (g *c1gen) structLit(depth int, marksOK bool) (string, bool) {
-	body, m, _ := g.body(depth, marksOK, 1+g.r.Intn(4), false)
+	body, m, _ := g.body(depth, marksOK, 1+g.r.Intn(3), false)
 	return "{" + strings.Join(body, ", ") + "}", m
 }
 
@@ -235,13 +335,16 @@ func (g *c1gen) body(depth int, marksOK bool, n int, top bool) (decls []string, 
 			// reference to an earlier sibling label
 			if len(labels) > 0 && g.r.Chance(1, 8) {
 				sib := Pick(g.r, labels)
-				if sib != lab && !strings.HasPrefix(sib, `"`) {
+				if sib != lab && !strings.HasPrefix(sib, `"`) && c1family(sib) == c1family(lab) {
 					g.count("ref-sibling")
 					v = sib
 				}
 			}
 			if v == "" {
+				saved := g.fam
+				g.fam = c1family(lab)
 				v, vm = g.val(depth-1, ok, "")
+				g.fam = saved
 			}
 			if used[lab] {
 				g.count("same-label-twice")
@@ -252,23 +355,44 @@ func (g *c1gen) body(depth int, marksOK bool, n int, top bool) (decls []string, 
 			decls = append(decls, lab+marker+": "+v)
 		case w < 70:
 			g.count("pattern")
-			pat := Pick(g.r, []string{"string", `=~"^a"`, `!="b"`, `=~"c$"`})
-			v, _ := g.val(depth-1, g.free, "")
+			pat := Pick(g.r, []string{"string", `=~"^a"`, `!="b"`, `=~"c$"`, `=~"^a"`})
+			saved := g.fam
+			// `[=~"^a"]` meets label a (integers), `[!="b"]` meets a and c, … keep patterns
+			// to top-like constraints most of the time
+			g.fam = ""
+			v := Pick(g.r, []string{"_", "_", "int | string | {...}", "number | string | {...}", "_"})
+			switch pat {
+			case `=~"^a"`:
+				g.fam = "int"
+				v = Pick(g.r, []string{"int", "1", ">0", "number", "<10", "int", g.scalar()})
+			case `=~"c$"`:
+				g.fam = "struct"
+				v, _ = g.val(depth-1, g.free, "")
+			}
+			g.fam = saved
 			decls = append(decls, "["+pat+"]: "+v)
 		case w < 82:
 			g.count("embedding")
 			var v string
-			switch g.r.Intn(4) {
-			case 0:
+			savedF := g.fam
+			g.fam = "struct"
+			defer func() { g.fam = savedF }()
+			switch g.r.Intn(12) {
+			case 0, 1, 2, 3:
 				v, _ = g.structLit(depth-1, g.free)
-			case 1:
+			case 4:
 				s, _ := g.structLit(depth-1, g.free)
 				v = "close(" + s + ")"
 			default:
 				var m bool
 				v, m = g.ref(g.free, "")
 				marks = marks || m
+				if !strings.HasPrefix(v, "#") && !strings.HasPrefix(v, "{") && !c1isTopName(v) {
+					// ref fell back to a scalar: embed a struct instead
+					v, _ = g.structLit(depth-1, g.free)
+				}
 			}
+			g.fam = savedF
 			decls = append(decls, v)
 		case w < 90:
 			g.count("comprehension")
@@ -281,10 +405,9 @@ func (g *c1gen) body(depth int, marksOK bool, n int, top bool) (decls []string, 
 					decls = append(decls, fmt.Sprintf("if %s %s %d {%s}", Pick(g.r, g.ints), Pick(g.r, []string{">", "<", "==", "!="}), 1+g.r.Intn(2), strings.Join(inner, ", ")))
 				}
 			case 2:
-				v, _ := g.val(0, false, "")
-				decls = append(decls, fmt.Sprintf(`for k, v in {a: 1, c: 2} {"\(k)": %s}`, Pick(g.r, []string{"v", v, "v & int"})))
+				decls = append(decls, fmt.Sprintf(`for k, v in {a: 1, a2: 2} {"\(k)": %s}`, Pick(g.r, []string{"v", "int", "v & int"})))
 			default:
-				decls = append(decls, fmt.Sprintf(`for i, v in [1, 2] {"a\(i)": v, %s}`, strings.Join(inner, ", ")))
+				decls = append(decls, fmt.Sprintf(`for i, v in [1, 1] {"a\(i)": v, %s}`, strings.Join(inner, ", ")))
 			}
 		case w < 95:
 			if !ellipsis && !top {
@@ -295,13 +418,25 @@ func (g *c1gen) body(depth int, marksOK bool, n int, top bool) (decls []string, 
 			if depth > 0 {
 				g.count("let")
 				name := fmt.Sprintf("L%d", g.r.Intn(1000))
-				v, _ := g.val(depth-1, false, "")
 				lab := Pick(g.r, c1labels)
+				saved := g.fam
+				g.fam = c1family(lab)
+				v, _ := g.val(depth-1, false, "")
+				g.fam = saved
 				decls = append(decls, "let "+name+" = "+v, lab+": "+name)
 				labels = append(labels, lab)
 				used[lab] = true
 			}
 		}
+	}
+	if len(labels) == 0 {
+		// never a struct literal made of comprehensions / embeddings only
+		lab := Pick(g.r, c1labels)
+		saved := g.fam
+		g.fam = c1family(lab)
+		decls = append(decls, lab+": "+g.scalar())
+		g.fam = saved
+		labels = append(labels, lab)
 	}
 	if ellipsis {
 		decls = append(decls, "...")
@@ -318,7 +453,7 @@ func (g *c1gen) Program() string {
 		name := fmt.Sprintf("k%d", i)
 		lines = append(lines, fmt.Sprintf("%s: %d", name, i))
 		g.ints = append(g.ints, name)
-		g.tops = append(g.tops, c1top{name: name})
+		g.tops = append(g.tops, c1top{name: name, kind: "int"})
 	}
 	nd := g.r.Intn(3)
 	for i := 0; i < nd; i++ {
@@ -326,19 +461,26 @@ func (g *c1gen) Program() string {
 		g.count("definition")
 		g.self, g.refLimit = name, len(g.tops)
 		if g.r.Chance(1, 6) {
+			g.fam = Pick(g.r, []string{"int", "str", "struct"})
 			v, m := g.val(g.maxDepth-1, true, name)
 			lines = append(lines, name+": "+v)
-			g.tops = append(g.tops, c1top{name: name, marks: m})
+			g.tops = append(g.tops, c1top{name: name, marks: m, kind: g.fam})
 			continue
 		}
+		g.fam = "struct"
 		body, m, labels := g.body(g.maxDepth-1, true, 1+g.r.Intn(4), false)
 		lines = append(lines, name+": {"+strings.Join(body, ", ")+"}")
-		g.tops = append(g.tops, c1top{name: name, isStruct: true, labels: c1plain(labels), marks: m})
+		g.tops = append(g.tops, c1top{name: name, isStruct: true, labels: c1plain(labels), marks: m, kind: "struct"})
 	}
-	nf := 2 + g.r.Intn(5)
+	nf := 2 + g.r.Intn(4)
 	usedTop := map[string]bool{}
 	for i := 0; i < nf; i++ {
 		name := Pick(g.r, []string{"x", "y", "z", "w"})
+		kind := map[string]string{"x": "struct", "y": "struct", "z": "int", "w": "struct"}[name]
+		if name == "w" && g.r.Chance(1, 3) && !usedTop[name] {
+			kind = ""
+		}
+		g.fam = kind
 		ok := !usedTop[name] || g.free
 		g.self, g.refLimit = name, len(g.tops)
 		for j := range g.tops {
@@ -349,7 +491,7 @@ func (g *c1gen) Program() string {
 		var v string
 		var m, isStruct bool
 		var labels []string
-		if g.r.Chance(1, 2) {
+		if kind == "struct" && g.r.Chance(2, 3) {
 			var body []string
 			body, m, labels = g.body(g.maxDepth-1, ok, 1+g.r.Intn(4), false)
 			v = "{" + strings.Join(body, ", ") + "}"
@@ -373,9 +515,10 @@ func (g *c1gen) Program() string {
 			}
 		}
 		if !found && marker == "" {
-			g.tops = append(g.tops, c1top{name: name, isStruct: isStruct, labels: c1plain(labels), marks: m})
+			g.tops = append(g.tops, c1top{name: name, isStruct: isStruct, labels: c1plain(labels), marks: m, kind: kind})
 		}
 	}
+	g.fam = ""
 	if g.r.Chance(1, 6) {
 		g.count("let-top")
 		g.self, g.refLimit = "", len(g.tops)
@@ -383,6 +526,14 @@ func (g *c1gen) Program() string {
 		lines = append(lines, "let T = "+v, "t: T")
 	}
 	return strings.Join(lines, "\n") + "\n"
+}
+
+func c1isTopName(s string) bool {
+	switch s {
+	case "x", "y", "z", "w":
+		return true
+	}
+	return false
 }
 
 func c1plain(labels []string) []string {
